@@ -142,7 +142,7 @@ func newPipeline(cacheSize int, hitForPass string, withStore bool, srvOpt server
 	p.cacheCfg = cc
 	// a fresh dispatcher every time: remove then add
 	cache.ResetDispatchers(nil)
-	cache.ResetDispatchers([]config.CacheConfig{cc})
+	cache.ResetDispatchers(withSibling(cc))
 	if ups == nil {
 		ups = []config.UpstreamConfig{{Name: "u1", Servers: []config.UpstreamServerConfig{{Addr: "http://127.0.0.1:1"}}}}
 	}
@@ -185,6 +185,13 @@ func newPipeline(cacheSize int, hitForPass string, withStore bool, srvOpt server
 	e.ALL("/*", func(c *elton.Context) error { return nil })
 	p.e = e
 	return p
+}
+
+// withSibling: the cache under test is never the only, nor the last, cache of the configuration: a second cache with
+// another size and another hit-for-pass period is listed after it (what is configured for one cache must not leak
+// into another, and a reload must keep every cache that is still configured, not only the last one)
+func withSibling(cc config.CacheConfig) []config.CacheConfig {
+	return []config.CacheConfig{cc, {Name: "zsibling", Size: 9, HitForPass: "1234s"}}
 }
 
 func (p *pipeline) setScript(f upstreamScript) { p.mu.Lock(); p.script = f; p.mu.Unlock() }
